@@ -47,55 +47,321 @@ def m2c00 (drawers : List DrawerTables) (sub ver : Nat) (data : Bytes) : Option 
     | some d => (parseTrace d.strs data).map fun ls => .obj [(s "Trace", linesJ ls)]
   else some (.obj [(s "Data", if data = [] then .arr [] else hexdumpJ data)])
 
-/-! ### module caches (C19) -/
+/-! ### module caches (C19)
 
-/-- a cache: module name → what was stored for it (the module's behaviour; `absent` = `None` was stored) -/
-abbrev UdCache := List (Text × UdPlugin)
-abbrev SrcCache := List (Text × SrcPlugin)
-abbrev CalloutCache := List (Text × CalloutPlugin)
+  State of the decoder that survives a decode, and the rules by which the code updates it, one function per place in the
+  Python text where a table is consulted:
+
+  * `parse_user_data.userDataParsers`  — `ParseUserData.parseCustom`      → `udLookup`
+  * `src.srcParsers`                   — `SRC.parse`                       → `srcLookup`
+  * `src.calloutParsers`               — `SRC.getProcedureDesc`            → `calloutLookup`
+  * `osrc.osrcParsers`                 — `osrc.parseSRCToJson`             → `osrcLookup`
+  * `comp_id.componentIDs`, `comp_id.attemptedToParseCompIDs` — `getDisplayCompID` / `getAllCreatorsCompIDs` → `compIdLookup`
+
+  Every function returns what the decoder then works with and the table afterwards.  Keys are the short module names
+  the environment is indexed by (`x1111` for `udparsers.x1111.x1111`, `xsrc` / `o8d00` for `srcparsers.….…`, the
+  lower-case creator id `x` for `calloutparsers.xcallouts.xcallouts`).
+-/
+
+deriving instance DecidableEq for UdPlugin, SrcPlugin, CalloutPlugin
+
+/-- a module-level dict `module name → module | None`: `none` = `None` is stored, `some b` = a module object with
+    behaviour `b` is stored.  `name in d` / `d[name]` read the FIRST pair with that name, `d[name] = v` puts a pair in
+    front (the rules below only ever assign to a name that is not a key: see `C19.cache_keys_distinct`). -/
+abbrev Cache (β : Type) := List (Text × Option β)
+
+/-- `d[name] if name in d` -/
+def cacheGet {β} (c : Cache β) (n : Text) : Option (Option β) := (c.find? (fun p => p.1 == n)).map (·.2)
+
+/-- why `importlib.import_module` fails for a module that the environment calls `absent` -/
+inductive Fault where
+  | notFound       -- there is no such module: ModuleNotFoundError
+  | importError    -- the module exists, executing it raises an ImportError that is not a ModuleNotFoundError
+  | other          -- the module exists, executing it raises any other exception
+deriving DecidableEq, Repr
+
+/-- outcome of `importlib.import_module` -/
+inductive Imp (β : Type) where
+  | failed (f : Fault)
+  | module (b : β)
+deriving DecidableEq, Repr
+
+/-- a module object found in `srcParsers`: an SRC parser, or the shipped wrapper `srcparsers.osrc.osrc`, which forwards
+    to the component parsers through a table of its own -/
+inductive SrcMod where
+  | parser (b : SrcPlugin)
+  | osrcWrapper
+deriving DecidableEq, Repr
+
+/-- `componentIDs`: creator id → (component id → name); a Python dict (`dictSet` below) -/
+abbrev CompTable := List (Text × List (Text × Text))
+/-- a configuration directory in `os.listdir` order: (file name, the object in that JSON file) -/
+abbrev ConfDir := List (Text × List (Text × Text))
+
+structure CompIdState where
+  attempted : Bool := false        -- `attemptedToParseCompIDs`
+  table : CompTable := []          -- `componentIDs`
+deriving DecidableEq, Repr
+
+/-- the environment of a long-running process: `Env` (the module behaviours `parsePEL` is stated over), plus what only
+    the cache rules can tell apart.
+    For SRC and callout modules `absent` in `Env` means "the import does not yield a module"; `srcFault` / `calloutFault`
+    say why (the decoder shows nothing in all three cases, the tables differ).  User-data modules need no such
+    refinement: `UdPlugin.absent` = ImportError (of either kind), `UdPlugin.importRaises` = any other exception.
+    The component-id table of a process comes from `confDir` (`none` = there is no configuration directory); the `T.compIds`
+    member of the underlying `Env` is not looked at (see `ProcEnv.fresh`). -/
+structure ProcEnv extends Env where
+  srcFault : Text → Fault := fun _ => .notFound
+  calloutFault : Text → Fault := fun _ => .notFound
+  confDir : Option ConfDir := none
+
+/-- importing `srcparsers.<n>.<n>` (the component modules of `osrc` and the `<creator>src` modules share the package) -/
+def ProcEnv.srcImport (env : ProcEnv) (n : Text) : Imp SrcPlugin :=
+  match env.src.src n with
+  | .absent => .failed (env.srcFault n)
+  | b => .module b
+
+/-- … as seen from `SRC.parse`: for creator `o` the module is the wrapper, which exists in the repository
+    (the assumption `srcDetails` makes as well) -/
+def ProcEnv.srcSiteImport (env : ProcEnv) (n : Text) : Imp SrcMod :=
+  if n = s "osrc" then .module .osrcWrapper else
+  match env.srcImport n with
+  | .failed f => .failed f
+  | .module b => .module (.parser b)
+
+/-- importing `calloutparsers.<n>callouts.<n>callouts` -/
+def ProcEnv.calloutImport (env : ProcEnv) (n : Text) : Imp CalloutPlugin :=
+  match env.src.callout n with
+  | .absent => .failed (env.calloutFault n)
+  | b => .module b
+
+/-- `ParseUserData.parseCustom` up to the point where `cls` is known.  The result is the behaviour the rest of the method
+    works with: `.absent` = `cls is None` (dump), `.importRaises msg` = the import's exception reaches `except Exception`
+    (error note + dump), anything else = the module whose `parseUDToJson` is called. -/
+def udLookup (env : ProcEnv) (c : Cache UdPlugin) (n : Text) : UdPlugin × Cache UdPlugin :=
+  match cacheGet c n with
+  | some none => (.absent, c)                        -- `cls = userDataParsers[mod]` is None
+  | some (some b) => (b, c)                          -- … is a module
+  | none =>                                          -- not a key: `importlib.import_module(mod)`
+    match env.ud n with
+    | .absent => (.absent, (n, none) :: c)           -- `except ImportError: cls = None`, then `userDataParsers[mod] = cls`
+    | .importRaises msg => (.importRaises msg, c)    -- any other exception leaves the inner `try`: NOTHING is stored
+    | b => (b, (n, some b) :: c)                     -- `userDataParsers[mod] = cls`
+  -- (a parser CALL that raises comes later and stores nothing: the table is not touched again)
+
+/-- `SRC.parse` up to the call: `none` = `return ""` -/
+def srcLookup (env : ProcEnv) (c : Cache SrcMod) (n : Text) : Option SrcMod × Cache SrcMod :=
+  match cacheGet c n with
+  | some v => (v, c)                                 -- `cls = srcParsers[mod]`; `if cls is None: return ""`
+  | none =>
+    match env.srcSiteImport n with
+    | .module m => (some m, (n, some m) :: c)        -- `srcParsers[mod] = cls`
+    | .failed _ => (none, (n, none) :: c)            -- BARE `except:` — any exception: `srcParsers[mod] = None; return ""`
+  -- (the call has its own `except Exception`: prints, returns '', stores nothing)
+
+/-- `SRC.getProcedureDesc` up to the call: `none` = `return` -/
+def calloutLookup (env : ProcEnv) (c : Cache CalloutPlugin) (n : Text) : Option CalloutPlugin × Cache CalloutPlugin :=
+  match cacheGet c n with
+  | some v => (v, c)                                 -- `cls = calloutParsers[mod]`
+  | none =>
+    match env.calloutImport n with
+    | .module m => (some m, (n, some m) :: c)        -- `calloutParsers[mod] = cls` …
+    | .failed _ => (none, (n, none) :: c)            -- … also after the BARE `except: cls = None`
+  -- (the call is in a `try … except: pass` of its own)
+
+/-- what a look-up hands on when the import's exception may also leave the function -/
+inductive Got (β : Type) where
+  | none                -- `None`
+  | module (b : β)
+  | raised              -- the exception of the import propagates to the caller
+deriving DecidableEq, Repr
+
+/-- `osrc.parseSRCToJson` up to the call of the component parser: `.none` = `json.dumps(None)`, `.raised` = the exception
+    leaves the wrapper (and is caught by the `except Exception` around the call in `SRC.parse`: no details) -/
+def osrcLookup (env : ProcEnv) (c : Cache SrcPlugin) (n : Text) : Got SrcPlugin × Cache SrcPlugin :=
+  match cacheGet c n with
+  | some none => (.none, c)                          -- "previously checked, is not found"
+  | some (some b) => (.module b, c)
+  | none =>
+    match env.srcImport n with
+    | .module b => (.module b, (n, some b) :: c)     -- `osrcParsers[mod] = module`
+    | .failed .notFound => (.none, (n, none) :: c)   -- `except ModuleNotFoundError: osrcParsers[mod] = None`
+    | .failed _ => (.raised, c)                      -- any other exception: not handled here, NOTHING is stored
+
+/-- Python `d[k] = v` -/
+def dictSet {α} : List (Text × α) → Text → α → List (Text × α)
+  | [], k, v => [(k, v)]
+  | (k', v') :: r, k, v => if k' = k then (k, v) :: r else (k', v') :: dictSet r k v
+
+def compSuffix : Text := s "_component_ids.json"
+
+/-- `file[0:file.find(suffix)]` for a name that contains the suffix -/
+def beforeFirst (pat : Text) : Text → Text
+  | [] => []
+  | x :: r => if pat.isPrefixOf (x :: r) then [] else x :: beforeFirst pat r
+
+/-- the loop of `getAllCreatorsCompIDs`: every file whose name CONTAINS `_component_ids.json` (anywhere) is loaded under
+    the part of the name before the first occurrence; a later file with the same prefix replaces the earlier one -/
+def loadFiles (acc : CompTable) (files : ConfDir) : CompTable :=
+  files.foldl (fun acc f => if isInfix compSuffix f.1 then dictSet acc (beforeFirst compSuffix f.1) f.2 else acc) acc
+
+/-- the table a fresh process ends up with -/
+def loadConf : Option ConfDir → CompTable
+  | none => []
+  | some files => loadFiles [] files
+
+/-- `getAllCreatorsCompIDs` -/
+def loadAllCompIds (dir : Option ConfDir) (st : CompIdState) : CompIdState :=
+  if st.attempted then st else                       -- `if attemptedToParseCompIDs: return`
+  match dir with
+  | none => { st with attempted := true }            -- no directory: message on stderr, `return`
+  | some files => { attempted := true, table := loadFiles st.table files }
+
+/-- `getDisplayCompID` for a creator that is not PHYP, up to the point where the name is looked up: the table it is
+    looked up in -/
+def compIdLookup (dir : Option ConfDir) (st : CompIdState) : CompTable × CompIdState :=
+  let st' := if st.table.isEmpty then loadAllCompIds dir st else st     -- `if not componentIDs: getAllCreatorsCompIDs()`
+  (st'.table, st')
 
 structure Caches where
-  ud : UdCache := []
-  src : SrcCache := []
-  callout : CalloutCache := []
+  ud : Cache UdPlugin := []
+  src : Cache SrcMod := []
+  callout : Cache CalloutPlugin := []
+  osrc : Cache SrcPlugin := []
+  comp : CompIdState := {}
 
-def lookCache {β} (c : List (Text × β)) (env : Text → β) : Text → β := fun n =>
-  match c.find? (fun p => p.1 == n) with
-  | some (_, v) => v
-  | none => env n
+/-- one consultation of a table, tagged with the place in the code -/
+inductive Lookup where
+  | ud (n : Text)          -- `parseCustom`, module `udparsers.n.n`
+  | src (n : Text)         -- `SRC.parse`, module `srcparsers.n.n`
+  | callout (n : Text)     -- `getProcedureDesc`, module `calloutparsers.<n>callouts.<n>callouts`
+  | osrc (n : Text)        -- `osrc.parseSRCToJson`, component module `srcparsers.n.n`
+  | compId                 -- `getDisplayCompID` of a creator that is not PHYP
+deriving DecidableEq, Repr
 
-/-- the environment as seen through the caches: a cached entry wins over a fresh import
-    (the message registry is module-level data loaded once, not a cache: it passes through unchanged) -/
-def Env.through (env : Env) (c : Caches) : Env :=
-  { env with ud := lookCache c.ud env.ud,
-             src := { env.src with callout := lookCache c.callout env.src.callout, src := lookCache c.src env.src.src } }
+def stepLookup (env : ProcEnv) (c : Caches) : Lookup → Caches
+  | .ud n => { c with ud := (udLookup env c.ud n).2 }
+  | .src n => { c with src := (srcLookup env c.src n).2 }
+  | .callout n => { c with callout := (calloutLookup env c.callout n).2 }
+  | .osrc n => { c with osrc := (osrcLookup env c.osrc n).2 }
+  | .compId => { c with comp := (compIdLookup env.confDir c.comp).2 }
 
-/-- a correct cache update: the modules touched by a decode are stored with the result of importing them -/
-def storeImports {β} (c : List (Text × β)) (env : Text → β) (touched : List Text) : List (Text × β) :=
-  touched.foldl (fun acc n => if acc.any (fun p => p.1 == n) then acc else (n, env n) :: acc) c
+/-- the tables after the ORDERED list of look-ups a decode performed -/
+def stepCaches (env : ProcEnv) (c : Caches) (touched : List Lookup) : Caches := touched.foldl (stepLookup env) c
 
-structure Touched where
-  ud : List Text := []
-  src : List Text := []
-  callout : List Text := []
+/-- the environment a decode in a FRESH process works with: the component-id table is what the loader makes of the
+    configuration directory -/
+def ProcEnv.fresh (env : ProcEnv) : Env :=
+  { env.toEnv with T := { env.T with compIds := loadConf env.confDir } }
 
-/-- one decode in a long-running process: the result is computed through the caches, then the caches are updated
-    for whatever modules the decode touched (any set: the theorems hold for all of them) -/
-def decodeS (env : Env) (cfg : SelCfg) (c : Caches) (b : Bytes) (t : Touched) : Outcome × Caches :=
-  (parsePEL (env.through c) cfg b,
-   { ud := storeImports c.ud env.ud t.ud, src := storeImports c.src env.src.src t.src,
-     callout := storeImports c.callout env.src.callout t.callout })
+/-- names `srcDetails` asks for on behalf of creator `o` end in "00" (`o<xx>00`); the hostboot parser `bsrc` is reached
+    both directly (creator `b`) and through the wrapper (creator `o`, BC reference codes): it is shown as `SRC.parse`
+    sees it (the two views differ only for tables that are not `Coherent`) -/
+def isComponentName (n : Text) : Bool := n.reverse.take 2 == [48, 48]
 
-/-- every cached entry is what importing that module yields: looking a module up through the caches gives the same
-    answer as importing it -/
-def Coherent (env : Env) (c : Caches) : Prop :=
-  (∀ n, lookCache c.ud env.ud n = env.ud n) ∧
-  (∀ n, lookCache c.src env.src.src n = env.src.src n) ∧
-  (∀ n, lookCache c.callout env.src.callout n = env.src.callout n)
+/-- the SRC parser behaviour `srcDetails` works with for module `n`, through the tables -/
+def seenSrc (env : ProcEnv) (c : Caches) (n : Text) : SrcPlugin :=
+  if n = s "osrc" then env.src.src n else             -- never asked for (creator `o` is routed to a component)
+  if isComponentName n then
+    match (srcLookup env c.src (s "osrc")).1 with
+    | some .osrcWrapper =>
+      (match (osrcLookup env c.osrc n).1 with
+        | .module b => b
+        | .none => .absent                             -- 'null'
+        | .raised => .absent)                          -- caught around the call in `SRC.parse`: ''
+    | some (.parser b) => b
+    | none => .absent
+  else
+    match (srcLookup env c.src n).1 with
+    | some (.parser b) => b
+    | some .osrcWrapper => .absent
+    | none => .absent
 
-/-- a history: the decodes performed before, each with the modules it touched -/
-def runHistory (env : Env) (cfg : SelCfg) : Caches → List (Bytes × Touched) → Caches
+def seenCallout (env : ProcEnv) (c : Caches) (n : Text) : CalloutPlugin :=
+  match (calloutLookup env c.callout n).1 with
+  | some b => b
+  | none => .absent
+
+/-- the environment as seen through the tables: every module and the component-id table are what the look-up functions
+    hand to the decoder (the message registry is module-level data loaded once, not a cache: it passes through unchanged).
+    One table state serves the whole decode: a look-up never changes what a later look-up of the same module hands on
+    (`C19.lookups_stable`). -/
+def ProcEnv.through (env : ProcEnv) (c : Caches) : Env :=
+  { T := { env.T with compIds := (compIdLookup env.confDir c.comp).1 },
+    ud := fun n => (udLookup env c.ud n).1,
+    src := { env.src with callout := seenCallout env c, src := seenSrc env c },
+    allowPlugins := env.allowPlugins }
+
+/-- one decode in a long-running process: the result is computed through the tables, and the tables are updated by the
+    look-ups the decode performed (any list: the theorems hold for all of them; the state is returned also when the decode
+    fails) -/
+def decodeS (env : ProcEnv) (cfg : SelCfg) (c : Caches) (b : Bytes) (t : List Lookup) : Outcome × Caches :=
+  (parsePEL (env.through c) cfg b, stepCaches env c t)
+
+/-- observational coherence: every look-up through the tables hands the decoder what the same look-up hands it in a fresh
+    process (empty tables).  E.g. an SRC module whose import raises is stored as `None`; a fresh import raises again; both
+    mean "no details". -/
+def Coherent (env : ProcEnv) (c : Caches) : Prop :=
+  (∀ n, (udLookup env c.ud n).1 = (udLookup env [] n).1) ∧
+  (∀ n, (srcLookup env c.src n).1 = (srcLookup env [] n).1) ∧
+  (∀ n, (calloutLookup env c.callout n).1 = (calloutLookup env [] n).1) ∧
+  (∀ n, (osrcLookup env c.osrc n).1 = (osrcLookup env [] n).1) ∧
+  (compIdLookup env.confDir c.comp).1 = (compIdLookup env.confDir {}).1
+
+/-- a history: the decodes performed before, each with the look-ups it made -/
+def runHistory (env : ProcEnv) (cfg : SelCfg) : Caches → List (Bytes × List Lookup) → Caches
   | c, [] => c
   | c, (b, t) :: h => runHistory env cfg (decodeS env cfg c b t).2 h
+
+/-! what an entry of a table may be, stated against the import system (used by `C19.cache_contents`) -/
+
+/-- `userDataParsers`: `None` only for a module whose import raises an ImportError; a module object only with that module's
+    behaviour — and never for a module whose execution raises something else -/
+def UdEntryOk (env : ProcEnv) (n : Text) (v : Option UdPlugin) : Prop :=
+  match v with
+  | none => env.ud n = .absent
+  | some b => env.ud n = b ∧ b ≠ .absent ∧ ∀ msg, b ≠ .importRaises msg
+
+/-- `srcParsers`: `None` for ANY failure of the import -/
+def SrcEntryOk (env : ProcEnv) (n : Text) (v : Option SrcMod) : Prop :=
+  match v with
+  | none => ∃ f, env.srcSiteImport n = .failed f
+  | some m => env.srcSiteImport n = .module m
+
+/-- `calloutParsers`: `None` for ANY failure of the import -/
+def CalloutEntryOk (env : ProcEnv) (n : Text) (v : Option CalloutPlugin) : Prop :=
+  match v with
+  | none => ∃ f, env.calloutImport n = .failed f
+  | some m => env.calloutImport n = .module m
+
+/-- `osrcParsers`: `None` only for ModuleNotFoundError -/
+def OsrcEntryOk (env : ProcEnv) (n : Text) (v : Option SrcPlugin) : Prop :=
+  match v with
+  | none => env.srcImport n = .failed .notFound
+  | some b => env.srcImport n = .module b
+
+/-- `componentIDs` is empty until the one attempt to load it, and what the loader makes of the directory afterwards -/
+def CompStateOk (env : ProcEnv) (st : CompIdState) : Prop :=
+  (st.attempted = false ∧ st.table = []) ∨ (st.attempted = true ∧ st.table = loadConf env.confDir)
+
+/-! the repaired defect D9, for the record: the rules as they were before the fix -/
+
+/-- pre-fix `parseCustom`: an ImportError that left the parser CALL was handled by the same `except ImportError` as a
+    failed import — `userDataParsers[mod] = None`, over whatever the table held (`callImportError` = the module's
+    `parseUDToJson` raised an ImportError this time) -/
+def udLookupOld (env : ProcEnv) (c : Cache UdPlugin) (n : Text) (callImportError : Bool) : UdPlugin × Cache UdPlugin :=
+  let r := udLookup env c n
+  match r.1 with
+  | .raises _ => if callImportError then (.absent, (n, none) :: r.2) else r
+  | _ => r
+
+/-- pre-fix `getProcedureDesc`: ANY exception, also one raised while describing a single procedure, ended in
+    `calloutParsers[mod] = None` -/
+def calloutLookupOld (env : ProcEnv) (c : Cache CalloutPlugin) (n : Text) (callRaised : Bool) :
+    Option CalloutPlugin × Cache CalloutPlugin :=
+  let r := calloutLookup env c n
+  match r.1 with
+  | some _ => if callRaised then (r.1, (n, none) :: r.2) else r
+  | none => r
 
 end Pel
